@@ -394,15 +394,14 @@ theorem nextFire_fixed (f : Fields) (hwf : WellFormed f = true) (c prev : Int)
         (match nw with
          | none => .expired
          | some t => .ok ((t.toSeconds - c) * 1000000000)) := by
-  have htd : Int.tdiv prev 1000000000 = prev / 1000000000 := Int.tdiv_eq_ediv_of_nonneg hp
   obtain ⟨hwv, hws⟩ := wall0_valid c prev hc hp
   have hnf : nextFire {} f (fixedZone c) prev =
       zoneLoop {} f (fixedZone c) (prev / 1000000000) c
         ((((((3940 * 13 + 12) * 32 + 31) * 24 + 23) * 60 + 59) * 60 + 59) + 1)
         (Civil.ofSeconds (prev / 1000000000 + c)) := by
-    show zoneLoop {} f (fixedZone c) (Int.tdiv prev 1000000000) c csmFuel
-      (Civil.ofSeconds (Int.tdiv prev 1000000000 + c)) = _
-    rw [htd, csmFuel_eq]
+    show zoneLoop {} f (fixedZone c) (prev / 1000000000) c csmFuel
+      (Civil.ofSeconds (prev / 1000000000 + c)) = _
+    rw [csmFuel_eq]
   have hnext : ∀ t, csmNext {} f (Civil.ofSeconds (prev / 1000000000 + c)) = some (some t) →
       prev / 1000000000 + c < t.toSeconds := by
     intro t ht
